@@ -6,7 +6,9 @@ package kmerindex
 
 import (
 	"fmt"
+	"math/rand"
 	"os"
+	"strconv"
 	"strings"
 	"testing"
 
@@ -46,8 +48,25 @@ func TestVerifBounded_C10_Words(t *testing.T) {
 		maxK = 10
 	}
 	lookUp := alphabet.DNA.LetterIndex()
-	for k := 4; k <= maxK; k++ {
-		for _, w := range verifWords(k) {
+	// every word for the small k, and a seeded random sample of the words of every larger supported k
+	seed, _ := strconv.Atoi(os.Getenv("VERIF_SEED"))
+	rnd := rand.New(rand.NewSource(int64(seed) + 10))
+	for k := 4; k <= MaxKmerLen; k++ {
+		words := []string(nil)
+		if k <= maxK {
+			words = verifWords(k)
+		} else {
+			for n := 0; n < 400; n++ {
+				b := make([]byte, k)
+				for i := range b {
+					b[i] = "acgt"[rnd.Intn(4)]
+				}
+				words = append(words, string(b))
+			}
+			// the corners: a single g or c at either end, everything else a or t
+			words = append(words, "g"+strings.Repeat("a", k-1), strings.Repeat("t", k-1)+"c", strings.Repeat("c", k), strings.Repeat("g", k))
+		}
+		for _, w := range words {
 			cases++
 			nontrivial++
 			km, err := KmerOf(k, lookUp, w)
@@ -73,7 +92,7 @@ func TestVerifBounded_C10_Words(t *testing.T) {
 			t.Fatalf("KmerOf accepts an invalid letter")
 		}
 	}
-	fmt.Printf("BOUNDED name=C10.words cases=%d nontrivial=%d exhaustive=true domain=%q\n", cases, nontrivial, fmt.Sprintf("all 4^k words for k in 4..%d (both cases)", maxK))
+	fmt.Printf("BOUNDED name=C10.words cases=%d nontrivial=%d exhaustive=true domain=%q\n", cases, nontrivial, fmt.Sprintf("all 4^k words for k in 4..%d (both cases), 400 seeded random words plus corner words for every k up to %d", maxK, MaxKmerLen))
 }
 
 // TestVerifBounded_C10_Index: positions and frequencies for every sequence of a small scope.
